@@ -144,6 +144,7 @@ int main(void) {
 type wuffsBuild struct {
 	exe     string
 	cleanup func()
+	note    string
 }
 
 // toolsError: cmd/wuffs or cmd/wuffs-c (the compiler, outside this property's anchors) do not build.
@@ -153,37 +154,68 @@ func (e *toolsError) Error() string { return e.err.Error() }
 
 // genStdSubset is hlib.GenStd restricted to base + std/xz and its dependencies (std/lzma, std/crc32,
 // std/crc64, std/sha256): tools built from the working tree, scratch copy, `wuffs gen base std/xz`.
-func genStdSubset(repo string) (*hlib.StdBuild, error) {
+func genStdSubset(repo string) (sb *hlib.StdBuild, note string, err error) {
 	dir, cleanup := hlib.NewScratchDir("c17")
-	sb := &hlib.StdBuild{Scratch: filepath.Join(dir, "repo"), BinDir: filepath.Join(dir, "bin"), Cleanup: cleanup}
+	sb = &hlib.StdBuild{Scratch: filepath.Join(dir, "repo"), BinDir: filepath.Join(dir, "bin"), Cleanup: cleanup}
 	if err := os.MkdirAll(sb.Scratch, 0o755); err != nil {
 		cleanup()
-		return nil, err
-	}
-	if err := hlib.BuildTools(repo, sb.BinDir); err != nil {
-		cleanup()
-		return nil, &toolsError{err}
+		return nil, "", err
 	}
 	if err := hlib.CopyRepo(repo, sb.Scratch, "/test", "/example", "/doc", "/fuzz", "/script", "/release", "/lib", "/hello-wuffs-c"); err != nil {
 		cleanup()
-		return nil, err
+		return nil, "", err
 	}
-	env := []string{"PATH=" + sb.BinDir + ":" + os.Getenv("PATH")}
-	o, e, err := hlib.RunCmd(10*time.Minute, sb.Scratch, env, nil, filepath.Join(sb.BinDir, "wuffs"), "gen", "base", "std/xz")
-	if err != nil {
-		cleanup()
-		return nil, fmt.Errorf("wuffs gen base std/xz: %v\n%s%s", err, o, e)
+	gen := func(binDir string) error {
+		os.RemoveAll(filepath.Join(sb.Scratch, "gen"))
+		env := []string{"PATH=" + binDir + ":" + os.Getenv("PATH")}
+		o, e, err := hlib.RunCmd(10*time.Minute, sb.Scratch, env, nil, filepath.Join(binDir, "wuffs"), "gen", "base", "std/xz")
+		if err != nil {
+			return fmt.Errorf("wuffs gen base std/xz: %v\n%s%s", err, o, e)
+		}
+		return nil
+	}
+	var primary error
+	if primary = hlib.BuildTools(repo, sb.BinDir); primary == nil {
+		primary = gen(sb.BinDir)
+	}
+	if primary != nil {
+		// The working-tree COMPILER (cmd/wuffs*, lang/*, internal/cgen: outside this property's anchors,
+		// watched by C01..C05/C11) does not build or rejects std/. Separate the two possible causes:
+		// compile the working-tree std/lzma + std/xz with the compiler of the last commit. If that
+		// works, the decoders' sources are fine and the oracle runs with that C; if not, the sources
+		// themselves are broken and that is reported.
+		head := filepath.Join(dir, "head")
+		headBin := filepath.Join(dir, "headbin")
+		if err := os.MkdirAll(head, 0o755); err != nil {
+			cleanup()
+			return nil, "", err
+		}
+		sh := "git -C '" + repo + "' archive HEAD cmd lang lib internal go.mod go.sum | tar -x -C '" + head + "'"
+		if _, e, err := hlib.RunCmd(5*time.Minute, "", nil, nil, "sh", "-c", sh); err != nil {
+			cleanup()
+			return nil, "", &toolsError{fmt.Errorf("%v; and the committed compiler could not be extracted: %v %s", primary, err, e)}
+		}
+		if err := hlib.BuildTools(head, headBin); err != nil {
+			cleanup()
+			return nil, "", &toolsError{fmt.Errorf("%v; and the committed compiler does not build either: %v", primary, err)}
+		}
+		if err := gen(headBin); err != nil {
+			cleanup()
+			return nil, "", fmt.Errorf("with the working-tree compiler: %v\nwith the compiler of the last commit: %v", primary, err)
+		}
+		note = "the working-tree Wuffs compiler does not build or rejects std/ (" + firstLines(primary.Error(), 3) +
+			"); std/lzma and std/xz from the working tree were compiled with the compiler of the last commit instead"
 	}
 	sb.Snapshot = filepath.Join(sb.Scratch, "release", "c", "wuffs-unsupported-snapshot.c")
 	if _, err := os.Stat(sb.Snapshot); err != nil {
 		cleanup()
-		return nil, err
+		return nil, "", err
 	}
-	return sb, nil
+	return sb, note, nil
 }
 
 func buildWuffsDriver(repo string, opt string) (*wuffsBuild, error) {
-	sb, err := genStdSubset(repo)
+	sb, note, err := genStdSubset(repo)
 	if err != nil {
 		return nil, err
 	}
@@ -200,7 +232,7 @@ func buildWuffsDriver(repo string, opt string) (*wuffsBuild, error) {
 	}
 	// the scratch repo copy is no longer needed once the driver is linked
 	os.RemoveAll(sb.Scratch)
-	return &wuffsBuild{exe: exe, cleanup: sb.Cleanup}, nil
+	return &wuffsBuild{exe: exe, cleanup: sb.Cleanup, note: note}, nil
 }
 
 type wuffsDec struct {
